@@ -27,7 +27,8 @@ def bases():
     out = {}
     for b in ("E1", "E3", "E5"):
         out["edif:" + b] = (".edf", edif_writer.render(fdesigns.BASES[b]()))
-    e8 = fdesigns.BASES["E4"]()
+    import copy
+    e8 = copy.deepcopy(fdesigns.BASES["E4"]())
     e8["libs"][2]["defs"][0]["insts"].append({"name": "u_inv2", "ref": ["gates", "INV"]})
     out["edif:E8"] = (".edf", edif_writer.render(e8))
     out["verilog:base"] = (".v", vw.render(c06.base_vad()))
@@ -40,7 +41,8 @@ def bases():
     out["edif:E9-rich"] = (".edf", edif_writer.render(fdesigns.BASES["E9"](), rich=True))
     out["eblif:B7"] = (".eblif", ew.render(c18.base("B7"), comments=True))
     # every library, cell, port and instance carries an identifier of its own next to its (legal) name
-    e3 = fdesigns.BASES["E3"]()
+    import copy
+    e3 = copy.deepcopy(fdesigns.BASES["E3"]())   # (the bases share port / leaf-cell dictionaries: never edit them in place)
     for lib in e3["libs"]:
         lib["id"] = lib["name"] + "_LID"
         for d in lib["defs"]:
@@ -333,9 +335,19 @@ def handle_worker(case):
     ref_outcome, ref = guarded_parse(path)
     ref_c = shape(ref) if ref is not None else None
 
+    import tempfile
+
+    def _tmp(f):
+        f.write(text.encode())
+        f.seek(0)
+        return f
+
     def go():
         h = {"text-file": lambda: open(path, "r"), "binary-file": lambda: open(path, "rb"),
-             "StringIO": lambda: io.StringIO(text), "BytesIO": lambda: io.BytesIO(text.encode())}[hkind]()
+             "StringIO": lambda: io.StringIO(text), "BytesIO": lambda: io.BytesIO(text.encode()),
+             # the standard library's temporary files (binary by default; neither is an io.BufferedIOBase subclass)
+             "NamedTemporaryFile": lambda: _tmp(tempfile.NamedTemporaryFile()),
+             "SpooledTemporaryFile": lambda: _tmp(tempfile.SpooledTemporaryFile(max_size=10 ** 7))}[hkind]()
         try:
             p = cls.from_file_handle(h)
             if switch:
@@ -487,7 +499,7 @@ def cases(tier):
         for policy in ("DEFAULT", "EDIF"):
             out.append(("file-fault", what, policy))
     for which in bases():
-        for hkind in ("text-file", "binary-file", "StringIO", "BytesIO"):
+        for hkind in ("text-file", "binary-file", "StringIO", "BytesIO", "NamedTemporaryFile", "SpooledTemporaryFile"):
             for cut in (False, True):
                 out.append(("handle", which, hkind, cut))
                 if hkind in ("text-file", "StringIO"):
